@@ -19,7 +19,7 @@ def classify(line):
 CFG = dict(
     imports=["From Verif.Common Require Import Packet PolicyRef.", "From Verif.C30 Require Import Model Spec EndModel EndSpec HistModel HistSpec RenderModel RenderSpec."],
     checker="check_top",
-    n=dict(quick=230, thorough=12000),
+    n=dict(quick=230, thorough=2760),
     shard=28,
     rule="RENDERING HISTORIES (kind:render-history): ONE real PolicySets + policy manager serving 2-3 renderings by the real "
          "endpoint manager with different tier layouts (tier-a / default / baseline subsets; the first rendering often ends with "
